@@ -180,13 +180,13 @@ type world struct {
 	cpanicAt map[string]bool
 	poisoned map[string]bool
 	abandon  bool
-	c       *sim.Case
-	e       *sim.Env
-	mode    string
-	flavor  int64
-	capa    int
-	cache   cacheAPI
-	nextID  int
+	c        *sim.Case
+	e        *sim.Env
+	mode     string
+	flavor   int64
+	capa     int
+	cache    cacheAPI
+	nextID   int
 	// loader plan: key -> attempt -> fail / ttl
 	attempts     map[string]int
 	failAt       map[string]bool // "key#attempt"
